@@ -185,7 +185,7 @@ Definition parse_header_line (line : bytes) : res (bytes * bytes) :=
       let nm := firstn colon line in
       if (Nat.eqb colon 0) || negb (forallb is_valid_header_field_byte nm) then Err EHeader
       else name <- str_unchecked nm ;;
-           Ok (name, trim_start is_ascii_ws (skipn (S colon) line))
+           Ok (name, trim_start is_ows (skipn (S colon) line))
   end.
 
 (* the `loop` of parse_headers; fuel bounds the number of iterations (each consumes >= 1 byte) *)
